@@ -15,6 +15,13 @@ import TinyHttpModel.Resp
 
 namespace TH
 
+instance instDecEqExcept {ε α : Type} [DecidableEq ε] [DecidableEq α] : DecidableEq (Except ε α) :=
+  fun a b => match a, b with
+  | .ok x, .ok y => if h : x = y then isTrue (by rw [h]) else isFalse (fun h' => by cases h'; exact h rfl)
+  | .error x, .error y => if h : x = y then isTrue (by rw [h]) else isFalse (fun h' => by cases h'; exact h rfl)
+  | .ok _, .error _ => isFalse (fun h' => by cases h')
+  | .error _, .ok _ => isFalse (fun h' => by cases h')
+
 /-- how the client's byte stream ends: still open (more may come), orderly close, reset. -/
 inductive EndState where
   | open | eof | reset
@@ -100,14 +107,14 @@ inductive HeadErr where
   | wrongHeader (v : Version)
   | notAscii
   | stop (s : Stop)
-deriving Repr
+deriving DecidableEq, Repr
 
 structure Head where
   method : Method
   url : Bytes
   version : Version
   headers : List Header
-deriving Repr, Inhabited
+deriving DecidableEq, Repr, Inhabited
 
 /-- the header loop of `ClientConnection::read` (client.rs:118-134); fuel ≥ number of lines. -/
 def readHeaders : Nat → Version → Bytes → EndState → Except HeadErr (List Header × Bytes)
@@ -360,10 +367,9 @@ def Body.drain : Nat → Body → Bytes → EndState → Option Bytes
     match b with
     | .done | .cursor _ | .raw | .failed => some bs
     | .limited rem =>
-      if rem = 0 then some bs
-      else if bs.isEmpty then (if fin == .open then none else some [])
-      else some (bs.drop rem) |>.bind (fun r =>
-        if rem ≤ bs.length then some r else (if fin == .open then none else some []))
+      -- the discard loop reads until `rem` bytes went by, or EOF / an error ends it
+      if rem ≤ bs.length then some (bs.drop rem)
+      else if fin == .open then none else some []
     | .chunked _ =>
       match b.read 4096 bs fin with
       | (.data _, b', bs') => Body.drain fuel b' bs' fin
